@@ -96,6 +96,27 @@ func genPool(t *rapid.T) []poolExpr {
 
 		seen[e.Shape()] = true
 		pool = append(pool, poolExpr{S: e.String(), BT: rapid.Bool().Draw(t, "bt")})
+
+		// now and then the same expression a second time with other wildcard names: both address the same node of
+		// the lookup tree, so heimdall accepts only one of the spellings at a time - which one must depend on the
+		// current rule sets only, never on what was loaded and removed before
+		if rapid.IntRange(0, 2).Draw(t, "altNames") == 0 {
+			alt := make(vkit.Expr, len(e))
+			copy(alt, e)
+
+			renamed := false
+
+			for k := range alt {
+				if alt[k].Kind != vkit.Lit && alt[k].Name != "*" {
+					alt[k].Name = "q" + alt[k].Name
+					renamed = true
+				}
+			}
+
+			if renamed {
+				pool = append(pool, poolExpr{S: alt.String(), BT: pool[len(pool)-1].BT})
+			}
+		}
 	}
 
 	if rapid.IntRange(0, 3).Draw(t, "withInvalid") == 0 {
@@ -145,7 +166,8 @@ func genRule(t *rapid.T, pool []poolExpr, id string, home int) ruleSpec {
 			dup = dup || have == c
 		}
 
-		if !dup {
+		// the same expression twice in one rule (two routes on one path, e.g. with different path_params) is rare but legal
+		if !dup || rapid.IntRange(0, 3).Draw(t, "sameExprTwice") == 0 {
 			r.Exprs = append(r.Exprs, c)
 		}
 	}
